@@ -253,7 +253,14 @@ def chacha_class(spec):
 
 
 def gost_tab(spec, sboxes):
-    return spec["sbox_tab"] if spec["sbox"] == "custom" else sboxes[spec["sbox"]]
+    """S-box the reference uses: for built-in sets the independently transcribed table (oracles/gost28147.REFERENCE_TABLES),
+    so that a wrong entry in the header is seen as wrong cipher output; the header-parsed table only where no transcription exists."""
+    if spec["sbox"] == "custom":
+        return spec["sbox_tab"]
+    for fragment, ref in GO.REFERENCE_TABLES.items():
+        if fragment in spec["sbox"].lower():
+            return ref
+    return sboxes[spec["sbox"]]
 
 
 def gpath(sa, da):
@@ -907,6 +914,11 @@ def run(tier):
         if f:
             raise common.Inconclusive("oracle self-test failed: %s" % f[:3])
     matrix, infos, builds, sboxes, names = prepare(tier, report)
+    for name, idx in GO.compare_with_reference(sboxes):
+        report.violation("oracle:gost28147:sbox-table-differs-from-rfc4357:%s" % name,
+                         {"table": name, "first_differing_index": idx, "row": "K%d" % (idx // 16 + 1), "column": idx % 16,
+                          "header_value": sboxes[name][idx]})
+    report.extra["sbox_sets_compared_with_independent_transcription"] = sorted(GO.REFERENCE_TABLES)
     rng = Rng("C08", common.seed(), tier, "gen")
     specs = gen_chacha(tier, rng) + gen_gost(tier, Rng("C08", common.seed(), tier, "gost"), names)
     Rng("C08", common.seed(), "shuffle").shuffle(specs)
